@@ -1,8 +1,15 @@
 import Driver.Sexp
 import Driver.FormatBase
+import Driver.Lat
 import Pcore.Model.FormatX
-/-! Driver op of C20 for the extended model:  `fmtx <ctx> <value>` (syntax in harness/c20/c20.go) — every value kind with a
-    ToString of its own, format maps keyed by the parameterless default types of all kinds (`XKey`). -/
+import Pcore.Model.FormatMergeG
+import Pcore.Model.FormatLat
+/-! Driver ops of C20 for the extended model (syntax in harness/c20/c20.go):
+    `fmtx <ctx> <value>` — every value kind with a ToString of its own, format maps keyed by the parameterless default types of all
+    kinds (`XKey`); ctx `mmap` = the user's map merged with the defaults (`contextMapG xkeyOrd`);
+    `keysubx A B` — `px.IsAssignable` on those 22 types;
+    `fmtt (tmap|tmmap ((T xNAME) FMT)*) <value>` — format maps keyed by ARBITRARY types: T a type term of the lattice model
+    (harness/lat/doc.go), NAME its `String()`; acceptance and the order of the merged map through `Lat.asg` / `Lat.ptype`. -/
 namespace C20X
 open Sx Pcore.Format C20
 
@@ -106,10 +113,84 @@ def execFmt (io : FloatIO) (ctx ve : Sexp) : String :=
          | .bad => "bad-op"
          | .err c => "reported " ++ codeStr c
          | .ok m => resStr (formatX kindKeys io m v))
+      | .list (.atom "mmap" :: es) =>
+        -- px.NewFormatContext3(v, hash) = mergeFormats(DefaultFormats, NewFormatMap(hash)); the cyclic default tables are unrolled
+        (match mapOf es with
+         | .bad => "bad-op"
+         | .err c => "reported " ++ codeStr c
+         | .ok m =>
+           if mapDepthG 8 m > 3 || !keysDistinct xkeyOrd 8 m then "out-of-model"
+           else resStr (formatX kindKeys io (contextMapG xkeyOrd .base m) v))
+      | _ => "bad-op"
+
+/-! ### maps keyed by arbitrary types -/
+
+def lkeyOf : Sexp → Option LKey
+  | .list [t, n] => do
+      let ty ← Lat.tyOf t
+      let name ← n.str?
+      pure ⟨ty, name⟩
+  | _ => none
+
+mutual
+partial def ttreeOf : Sexp → Built (GTree LKey)
+  | .list [d, sep, sep2, cf] =>
+    match d.str?, strOpt sep, strOpt sep2 with
+    | some d, some sep, some sep2 =>
+      let cfB : Built (Option (GMap LKey)) := match cf with
+        | .atom "-" => .ok none
+        | .list es => (match tmapOf es with | .ok m => .ok (some m) | .err c => .err c | .bad => .bad)
+        | _ => .bad
+      match cfB with
+      | .bad => .bad
+      | .err c => .err c
+      | .ok cf =>
+        match parseFormat d.toList sep sep2 with
+        | .ok f => .ok (.mk f cf)
+        | .error c => .err c
+    | _, _, _ => .bad
+  | _ => .bad
+partial def tmapOf : List Sexp → Built (GMap LKey)
+  | [] => .ok []
+  | .list [k, t] :: rest =>
+    match lkeyOf k with
+    | none => .bad
+    | some key =>
+      match ttreeOf t with
+      | .bad => .bad
+      | .err c => .err c
+      | .ok tr => (match tmapOf rest with | .ok m => .ok ((key, tr) :: m) | .err c => .err c | .bad => .bad)
+  | _ => .bad
+end
+
+def execFmtT (io : FloatIO) (ctx ve : Sexp) : String :=
+    match valOf ve with
+    | none => "bad-op"
+    | some v =>
+      -- a value kind the lattice model has no value of (Float, SemVer, URI, Timestamp, Type values, object instances)
+      if (XVal.toLat v).isNone then "out-of-model"
+      else match ctx with
+      | .list (.atom "tmap" :: es) =>
+        (match tmapOf es with
+         | .bad => "bad-op"
+         | .err c => "reported " ++ codeStr c
+         | .ok m => resStr (formatLat Lat.cfg Lat.sfh io m v))
+      | .list (.atom "tmmap" :: es) =>
+        (match tmapOf es with
+         | .bad => "bad-op"
+         | .err c => "reported " ++ codeStr c
+         | .ok m =>
+           if mapDepthG 8 m > 3 || !keysDistinct (latOrd Lat.cfg Lat.sfh) 8 m then "out-of-model"
+           else resStr (formatLatMerged Lat.cfg Lat.sfh io m v))
       | _ => "bad-op"
 
 def exec : List Sexp → String
   | [.atom "fmtx", ctx, ve] => execFmt driverIO ctx ve
+  | [.atom "fmtt", ctx, ve] => execFmtT driverIO ctx ve
+  | [.atom "keysubx", .atom a, .atom b] =>
+    (match keyOf a, keyOf b with
+     | some a, some b => boolStr (XKey.sub a b)
+     | _, _ => "bad-op")
   | _ => "bad-op"
 
 end C20X
